@@ -7,7 +7,7 @@ NOTES = ("All checks are property-based tests (pgregory.net/rapid v1.3.0) run by
          "VERIF_SEED selects the rapid seeds of all shards (sha256 of seed/property/test/shard); native coverage-guided fuzzing is not part of the registered commands (it cannot be pinned to a seed).")
 BASE = "Exploration (generated search with shrinking) is the level this family of technique gives: the property quantifies over all inputs/configurations, which has no finite model; "
 CLAIMED["C01"] = (
-    "property-based testing (rapid): generated multigraphs x full option grid; oracle = Layout returns + finite output; process-isolated workers with wall-clock/heap watchdog and journal",
+    "property-based testing (rapid): generated multigraphs x full option grid; oracle = Layout returns + finite output; process-isolated workers with wall-clock/heap watchdog and journal; plus small-scope exhaustive enumeration (every ordered edge list of <= 3 (thorough 4) edges on 3 nodes x the complete 3x2x5x5 algorithm grid) and, in the thorough tier, a time-boxed native coverage-guided fuzz stage (rapid.MakeFuzz)",
     BASE + "each case runs in a watched worker (recovered panics shrink through rapid; stack overflow / budget hits are taken from the journal, confirmed twice in isolation and minimised out of process).",
     "Budget per case: 180 s wall / 2 GiB live heap for graphs up to 60 nodes / ~3 edges per node (measured worst case about 11 s). NetworkSimplex positioner only up to 16 nodes / 24 edges (documented as unsuitable beyond a few dozen nodes). Splines outside the spline-safe domain D_S are excluded by construction (known finding K3).")
 CLAIMED["C02"] = (
@@ -31,7 +31,7 @@ CLAIMED["C06"] = (
     BASE + "each style's geometric contract is checked on every routed edge of generated drawings with heterogeneous widths and heights.",
     "Size-aware positioners, LayerSpacing > 0; splines only inside D_S (uniform heights), K3.")
 CLAIMED["C07"] = (
-    "property-based testing (rapid): repetition oracle (5 calls in-process on the same source and size map, DeepEqual, inputs compared with a snapshot) + per-case result digests compared between two fresh processes",
+    "property-based testing (rapid): repetition oracle (5 calls in-process on the same source and size map, DeepEqual, inputs compared with a snapshot) + per-case result digests compared between two fresh processes; thorough adds a native fuzz stage",
     BASE + "Go re-randomises map iteration on every range statement, so repetition samples iteration orders; every shard is additionally run twice in separate processes and the per-case SHA-256 digests are compared.",
     "Greedy+random excluded as the property states. A cross-process mismatch is reported with the case but replays only across two processes (./check C07 --replay runs the in-process oracle).")
 CLAIMED["C08"] = (
@@ -59,7 +59,7 @@ CLAIMED["C13"] = (
     BASE + "the small scope is enumerated completely (evidence lists it under exhaustive_subspaces); beyond it random trees of three shapes are searched.",
     "Default layering, Polyline, size-aware positioners; geometric check only with uniform sizes.")
 CLAIMED["C14"] = (
-    "property-based testing (rapid) + small-scope exhaustive enumeration (all ordered edge lists of <= 4 edges on 3 nodes): single-edge irredundancy of the reversed set (DepthFirst), no reversal on acyclic inputs",
+    "property-based testing (rapid) + small-scope exhaustive enumeration (all ordered edge lists of <= 4 edges on 3 nodes; thorough: <= 5 edges on 4 nodes): single-edge irredundancy of the reversed set (DepthFirst), no reversal on acyclic inputs",
     BASE + "the oracle is the property's own operational wording, evaluated with an independent cycle test on ID strings.",
     "Set-minimality beyond the single-edge criterion is not asserted (not stated).")
 CLAIMED["C15"] = (
@@ -79,10 +79,10 @@ CLAIMED["C18"] = (
     BASE + "the whole history shrinks as one value; panicking calls (empty graph, malformed edge after the monitor was installed, monitor's own Log panics) are part of the alphabet.",
     "The monitor is process-global state; histories are sequential (concurrency with monitors is outside C15/C18 as stated).")
 CLAIMED["C19"] = (
-    "property-based testing (rapid) inside package geom: differential against an independent visibility-graph Dijkstra + segment-in-corridor predicate; oracle self-tested against a door-to-door dynamic programme",
+    "property-based testing (rapid) inside package geom: differential against an independent visibility-graph Dijkstra + segment-in-corridor predicate; oracle self-tested against a door-to-door dynamic programme; plus small-scope exhaustive enumeration of all integer-grid corridors (<= 3 rectangles on 0..4, thorough <= 4 on 0..5) x 25 start/end positions; thorough adds a native fuzz stage",
     BASE + "corridors are generated with every step type (equal edges, widening, narrowing, shifts) on grid and free-float coordinates.",
     "Start/end position classes in which the pinned router is wrong (rectangle vertices, end inside/on the door line, start on the door line, interior start on a chord between corridor vertices) are known finding K1 and excluded by construction.")
 CLAIMED["C20"] = (
-    "property-based testing (rapid) inside package geom: validity predicate on FitSpline output (endpoints, joints, 400 samples per piece within 0.05 of the corridor, MergeRects polygon == corridor boundary) and a constructed-roots oracle for solve3",
+    "property-based testing (rapid) inside package geom: validity predicate on FitSpline output (endpoints, joints, 400 samples per piece within 0.05 of the corridor, MergeRects polygon == corridor boundary) and a constructed-roots oracle for solve3; plus the exhaustively enumerated grid corridors of C19 fed to the fitter; thorough adds native fuzz stages",
     BASE + "the fitter is fed exactly as the router feeds it; the root finder is compared with the roots its inputs were built from, with stated tolerances.",
     "Excursions with the signature of known finding K2 (leave and re-enter through crossings the fitter ignores by design) are counted, not failed; ill-conditioned leading coefficients (known finding K4) are not judged for accuracy.")
